@@ -2,6 +2,7 @@ package csim
 
 import (
 	"fmt"
+	"os"
 	"regexp"
 	"sort"
 	"strings"
@@ -11,6 +12,10 @@ import (
 
 	"verif/simrt"
 )
+
+// real (not simulated) time for watchdogs only; never influences a decision of a run
+func nowReal() int64            { return realNanos() }
+func sinceReal(t int64) float64 { return float64(realNanos()-t) / 1e9 }
 
 // DrawConfig draws a swarm-style configuration from the seed: validator count,
 // power vector, Byzantine subset (< 1/3 power), timeouts, part size, WAL head
@@ -372,8 +377,20 @@ func (w *World) FairSuffix() {
 	budget += time.Duration(lag) * time.Duration(cfg.TCommit+cfg.TPropose+cfg.TPrevote+cfg.TPrecommit+1000) * time.Millisecond
 	w.Evals.Inc("C12.suffix")
 	guard := 0
+	idle := 0
+	wall := nowReal()
+	beat := wall
 	for {
 		guard++
+		if sinceReal(beat) > 20 {
+			beat = nowReal()
+			fmt.Fprintf(os.Stderr, "suffix alive step %d sim %v\n", w.Step, w.Now())
+		}
+		if sinceReal(wall) > float64(simrt.EnvInt("VERIF_SUFFIX_WALL_S", 100)) {
+			// real-time cap: the run is inconclusive, not a violation
+			w.Probes.Inc("suffix_inconclusive_real_time_cap")
+			return
+		}
 		if w.stop && w.StopOnViolation {
 			return
 		}
@@ -425,6 +442,14 @@ func (w *World) FairSuffix() {
 				w.Step++
 				w.Deliver(v.nd, it, 0)
 				progressed = true
+				if os.Getenv("VERIF_SUFFIX_DEBUG") != "" && guard > 2000 && guard%500 == 0 {
+					extra := ""
+					if it.Kind == kPart && v.rs.ProposalBlockParts != nil {
+						hd := v.rs.ProposalBlockParts.Header()
+						extra = fmt.Sprintf(" node parts header total=%d hash=%X count=%d; item header total=%d; proof ok=%v", hd.Total, fp(hd.Hash), v.rs.ProposalBlockParts.Count(), it.PSH.Total, it.Part.Proof.Verify(it.Part.Index, hd.Total, it.Part.Hash(), hd.Hash))
+					}
+					fmt.Fprintf(os.Stderr, "suffix redelivery n%d <- %s (node at h%d r%d s%d)%s\n", v.nd.id, it.String(), v.rs.Height, v.rs.Round, v.rs.Step, extra)
+				}
 			}
 		}
 		for _, v := range vs {
@@ -438,9 +463,17 @@ func (w *World) FairSuffix() {
 			}
 		}
 		if !progressed {
+			// nothing deliverable: let time pass, in growing quanta while nothing happens
+			idle++
+			q := 50 * time.Millisecond
+			if idle > 4 {
+				q = 250 * time.Millisecond
+			}
 			w.Step++
-			time.Sleep(50 * time.Millisecond)
+			time.Sleep(q)
 			synctestWait()
+		} else {
+			idle = 0
 		}
 		w.afterStep()
 	}
